@@ -1,8 +1,9 @@
 import YaegiVerif.Proofs.C04Refine
 /-
-  C04 — append: the mechanism hands the operand SLOTS to reflect.Append, which stores them one by one.
-  When only the first operand may be an aliasing handle (the domain excludes the others), every slot
-  still holds, when it is stored, the value the specification evaluated up front.
+  C04 — append: until commit b312e89 of the repository the mechanism handed the operand SLOTS to reflect.Append,
+  which stores them one by one (the lemmas about handles below describe that shape: when only the first
+  operand may be an aliasing handle every slot still holds, when it is stored, the value the specification
+  evaluated up front). Since then every operand is read before any is stored: `appendY_spec` is unconditional.
 -/
 namespace YaegiVerif.Share
 open YaegiVerif.Expected.C04 (share)
@@ -129,60 +130,47 @@ theorem nohandle_of_map (srest : List Slot) (rest : List RExp) (hm : srest.map i
   rw [← hre]
   exact List.any_eq_false.mp ha r hr |> fun h => by simpa using h
 
-/-- `l = append(s, args…)` -/
+/-- detaching the variable slots does not change what the operand list reads -/
+theorem detachVars_read (st : St) : ∀ (ss : List Slot) (vals : List Val), readSlots st ss = .ok vals →
+    ∃ ss', detachVars st ss = .ok ss' ∧ readSlots st ss' = .ok vals := by
+  intro ss
+  induction ss with
+  | nil => intro vals h; exact ⟨[], rfl, h⟩
+  | cons s ss ih =>
+    intro vals h
+    simp only [readSlots, bind, Except.bind] at h
+    cases hs : slotVal st s with
+    | error e => simp [hs] at h
+    | ok v =>
+      simp only [hs] at h
+      cases hr : readSlots st ss with
+      | error e => simp [hr] at h
+      | ok ws =>
+        simp only [hr, Except.ok.injEq] at h
+        subst h
+        obtain ⟨ss', hd, hrd⟩ := ih ws hr
+        cases s with
+        | handle l => exact ⟨.handle l :: ss', by simp [detachVars, bind, Except.bind, hd], by simp [readSlots, bind, Except.bind, hs, hrd]⟩
+        | varslot x => exact ⟨.temp v :: ss', by simp [detachVars, bind, Except.bind, hs, hd], by simp [readSlots, slotVal, bind, Except.bind, hrd]⟩
+        | temp u => exact ⟨.temp u :: ss', by simp [detachVars, bind, Except.bind, hd], by simp [readSlots, bind, Except.bind, hs, hrd]⟩
+
+/-- `l = append(s, args…)` — whatever the operands alias: since commit b312e89 of the repository all of them are read
+    before any element is stored -/
 theorem appendY_spec (G : Growth) (st : St) (isDef : Bool) (l : LExp) (s : RExp) (args : List RExp) (zero : Val)
-    (esz : Nat) (noscan : Bool) (h : aliasArgs args = false) :
+    (esz : Nat) (noscan : Bool) :
     appendY share G st isDef l s args zero esz noscan = Spec.append G st isDef l s args zero esz noscan := by
   unfold appendY Spec.append
-  simp only [bind, Except.bind, share_appendArgsAreSlots, if_true]
+  simp only [bind, Except.bind, share_appendArgsAreSlots, Bool.false_eq_true, if_false]
   rcases evalSlot_cases st s with ⟨e, h1, h2⟩ | ⟨s0, st1, sv, h1, h2, h3, _⟩
   · simp [h1, h2]
   · simp only [h1, h2, h3]
     rcases evalSlots_cases st1 args with ⟨e, g1, g2⟩ | ⟨ss0, st2, vals, g1, g2, g3, _⟩
     · simp [g1, g2]
-    · simp only [g1, g3]
-      have hh := evalSlots_handles args st1 ss0 st2 g1
-      cases args with
-      | nil =>
-        cases ss0 with
-        | cons a b => simp at hh
-        | nil =>
-          simp only [readSlots, Except.ok.injEq] at g2
-          subst g2
-          simp [detachVars, appendVals, storeResult_spec]
-      | cons r0 rest =>
-        cases ss0 with
-        | nil => simp at hh
-        | cons a srest =>
-          simp only [List.map_cons, List.cons.injEq] at hh
-          simp only [aliasArgs] at h
-          have hno := nohandle_of_map srest rest hh.2 h
-          simp only [readSlots, bind, Except.bind] at g2
-          cases ha : slotVal st2 a with
-          | error e => simp [ha] at g2
-          | ok v0 =>
-            simp only [ha] at g2
-            cases hr : readSlots st2 srest with
-            | error e => simp [hr] at g2
-            | ok vs =>
-              simp only [hr, Except.ok.injEq] at g2
-              subst g2
-              obtain ⟨a', hd, hstable⟩ := detachVars_args st2 a srest v0 vs hno ha hr
-              simp only [hd, appendVals, List.isEmpty_cons, Bool.false_eq_true, if_false, List.length_cons, List.length_map,
-                bind, Except.bind]
-              cases hg : growFor G st2 sv (vs.length + 1) zero esz noscan with
-              | error e => rfl
-              | ok q =>
-                obtain ⟨b, off, len, cap, st3⟩ := q
-                have hext := growFor_ext G st2 sv _ zero esz noscan b off len cap st3 hg
-                simp only [writeElemsFromSlots, writeElems, hstable st3 hext, bind, Except.bind]
-                cases hw : st3.write ⟨b.cell, b.path ++ [off + len]⟩ v0 with
-                | error e => rfl
-                | ok st4 =>
-                  simp only [writeElemsFromTemps]
-                  cases writeElems st4 b (off + len + 1) vs with
-                  | error e => rfl
-                  | ok st5 => simp [storeResult_spec]
+    · obtain ⟨ss', hd, hrd⟩ := detachVars_read st2 ss0 vals g2
+      simp only [g1, g3, hd, hrd]
+      cases appendVals G st2 sv vals zero esz noscan with
+      | error e => rfl
+      | ok q => simp [storeResult_spec]
 
 /-- `l = append(s, t…)` -/
 theorem appendSliceY_spec (G : Growth) (st : St) (isDef : Bool) (l : LExp) (s t : RExp) (zero : Val)
@@ -214,9 +202,9 @@ theorem copyY_spec (st : St) (d s : RExp) : copyY st d s = Spec.copy st d s := b
     · simp [g1, g2]
     · simp [g1, g2, g3]
 
-theorem mapSetY_spec (st : St) (m : LExp) (k : IExp) (r : RExp) : mapSetY st m k r = Spec.mapSet st m k r := by
+theorem mapSetY_spec (st : St) (m : LExp) (k : IExp) (r : RExp) : mapSetY share st m k r = Spec.mapSet st m k r := by
   unfold mapSetY Spec.mapSet
-  simp only [bind, Except.bind]
+  simp only [bind, Except.bind, share_derefNilPanics, Bool.not_true, Bool.false_and, Bool.false_eq_true, if_false]
   cases resolve st m with
   | error e => rfl
   | ok loc =>
